@@ -30,13 +30,21 @@ type expectation struct {
 	want []string
 }
 
-func eq(v string) func([]byte) bool { return func(d []byte) bool { return string(d) == v } }
+// eq: the literal decodes to v. For a v that is not valid UTF-8 the value with U+FFFD in place of
+// every offending byte is accepted as well: text front ends (URL-decoded parameters run through
+// rune-based lexers, JSON documents) have no way to carry such bytes and replace them; that is
+// sanitisation, not a change of meaning the property is about.
+func eq(v string) func([]byte) bool {
+	v2 := jsonValid(v)
+	return func(d []byte) bool { return string(d) == v || string(d) == v2 }
+}
 
 // likeContains: the decoded literal is a LIKE pattern (rule A2) that means "contains v".
 func likeContains(v string) func([]byte) bool {
+	v2 := jsonValid(v)
 	return func(d []byte) bool {
 		lit, ok := lex.LikeContains(d)
-		return ok && bytes.Equal(lit, []byte(v))
+		return ok && (bytes.Equal(lit, []byte(v)) || bytes.Equal(lit, []byte(v2)))
 	}
 }
 
@@ -82,10 +90,17 @@ func expLineRegex(eff string) expectation {
 	if err == nil && exp.Op == syntax.OpLiteral && exp.Flags&^(syntax.PerlX|syntax.FoldCase) == 0 {
 		lit := string(exp.Rune)
 		cl := "literal-regex"
+		lc := likeContains(lit)
 		if exp.Flags&syntax.FoldCase != 0 {
+			// (?i): the pattern is used with ilike; any spelling that is equal under case folding
+			// means the same
 			cl = "literal-regex-fold"
+			lc = func(d []byte) bool {
+				got, ok := lex.LikeContains(d)
+				return ok && strings.EqualFold(string(got), lit)
+			}
 		}
-		return expectation{class: cl, slots: []func([]byte) bool{likeContains(lit), eq(eff)},
+		return expectation{class: cl, slots: []func([]byte) bool{lc, eq(eff)},
 			want: []string{"a LIKE pattern meaning: contains the literal the regex stands for", "the regex itself"}}
 	}
 	return expectation{class: "regex", slots: []func([]byte) bool{eq(eff)}, want: []string{"the regex itself"}}
@@ -302,6 +317,7 @@ func positions() []*position {
 	}
 	str("logql.labelfilter.map.metric", formsLogQL, tpl(`sum(rate({a="b"} | json x="x" | x=§ [10s])) by (x)`, lokiRange))
 	p = str("logql.json.path", formsLogQL, tpl(`{a="b"} | json x=§`, lokiRange))
+	p.restricted = true // a path is made of identifiers, quoted fields and indexes: see logql.json.path.field for the quoted form
 	p.expect = func(eff string) expectation {
 		if reLogQLIdent.MatchString(eff) || regexp.MustCompile(`^[a-zA-Z_][a-zA-Z0-9_]*$`).MatchString(eff) {
 			return expectation{class: "ident", slots: []func([]byte) bool{eq(eff)}, want: []string{"the single path component"}}
@@ -332,7 +348,7 @@ func positions() []*position {
 	p.expect, p.silent = expTemplate, true
 	p = str("logql.label_format.const.http", formsLogQL, tpl(`{a="b"} | label_format z=§`, lokiRange))
 	p.expect, p.silent = expTemplate, true
-	p = str("logql.unwrap.conversion-free", formsLogQL, tpl(`sum_over_time({a="b"} | json v=§ | unwrap v [10s]) by (a)`, lokiRange))
+	p = str("logql.json.path.field.unwrap", formsLogQL, tpl(`sum_over_time({a="b"} | json v=§ | unwrap v [10s]) by (a)`, lokiRange))
 	p.pre = func(s string) (string, bool) { return `[` + jsonQuote(s) + `]`, true }
 	p.expect = func(eff string) expectation { return expIdentity(jsonValid(eff)) }
 	str("logql.series.match.eq", formsLogQL, tpl(`{a=§}`, lokiSeries))
@@ -385,7 +401,7 @@ func positions() []*position {
 	p = ident("promql.ident.label", `up{§="x"}`, promRange, regexp.MustCompile(`^[a-zA-Z_][a-zA-Z0-9_]*$`))
 	p = ident("promql.ident.metric", `§{a="x"}`, promRange, regexp.MustCompile(`^[a-zA-Z_:][a-zA-Z0-9_:]*$`))
 	p = ident("promql.ident.by", `sum by (§) (up{a="x"})`, promRange, regexp.MustCompile(`^[a-zA-Z_][a-zA-Z0-9_]*$`))
-	_ = p
+	p.silent = true
 	// the matcher translation called directly with arbitrary bytes (values the PromQL parser
 	// refuses still arrive through other storage.Queryable callers)
 	str("promql.matcher.direct.value", formsRaw, func(h string) *request { return &request{direct: directPromMatcher("job", h, 0)} })
@@ -453,7 +469,8 @@ func positions() []*position {
 	str("tempo.tags.value.second", formsTag, tpl(`a=b http.url=§`, tempoSearchTags))
 	str("tempo.tags.name", formsTag, tpl(`§="x" http.method=GET`, tempoSearchTags))
 	str("tempo.tags.name.re", formsTag, tpl(`a=b §=~x.*`, tempoSearchTags))
-	str("tempo.tags.whole", formsRaw, tpl(`§`, tempoSearchTags)).expect = expFree
+	p = str("tempo.tags.whole", formsRaw, tpl(`§`, tempoSearchTags))
+	p.expect, p.benign = expFree, func(string) string { return "a=" + marker }
 
 	// ---------------- Pyroscope ----------------
 	sel := func(h string) string { return `{service_name="x", a!="b", ` + h + `}` }
@@ -485,7 +502,7 @@ func positions() []*position {
 		return `{"matchers":[` + jsonStr(`{a=`+h+`}`) + `],"label_names":["a"],` + profRange() + `}`
 	}))
 	str("prof.selector.analyze", formsGo, profBody("AnalyzeQuery", func(h string) string {
-		return `{"query":` + jsonStr(profType+`{a=`+h+`}`) + `,` + profRange() + `}`
+		return `{"query":` + jsonStr(`{a=`+h+`, service_name="x"}`) + `,` + profRange() + `}`
 	}))
 	str("prof.selector.renderdiff", formsGo, func(h string) *request {
 		return get("/pyroscope/render-diff", "leftQuery", profType+`{a=`+h+`}`, "leftFrom", ms(tFrom), "leftUntil", ms(tTo),
@@ -529,8 +546,9 @@ func positions() []*position {
 			return e
 		}
 	}
-	str("prof.selector.whole", formsJSON, profBody("SelectMergeStacktraces", func(h string) string {
+	p = str("prof.selector.whole", formsJSON, profBody("SelectMergeStacktraces", func(h string) string {
 		return `{"profile_typeID":` + jsonStr(profType) + `,"label_selector":` + h + `,` + profRange() + `}`
-	})).expect = expFree
+	}))
+	p.expect, p.benign = expFree, func(string) string { return `{a="` + marker + `"}` }
 	return ps
 }
